@@ -296,7 +296,7 @@ class World:
 def get_path(cfg, path):
     obj = cfg
     for key in path:
-        obj = getattr(obj, key)
+        obj = obj[key] if not key.startswith("_") and hasattr(obj, "_schema") else getattr(obj, key)
     return obj
 
 
